@@ -8,6 +8,7 @@
 From Coq Require Import String.
 From Coq Require Import List Bool NArith ZArith.
 From MV Require Import Base.Bytes Model.LeafCert Model.LeafCertSpec Gen.LeafCertConst Proofs.LeafCertC16.
+From MV Require Model.LeafCertCtx Proofs.LeafCertCtxC16.
 Import ListNotations.
 
 (* Whenever a certificate is served, it verifies under the strict verifier -- chain to the CA, AKI/SKI, validity at
@@ -143,3 +144,37 @@ Theorem C16_nonvacuous :
   /\ x509_ok false ca0 sample_cert (17193600 - 172800 + 3601) (THost (B "up.example")) = false.
 Proof. exact sample_ok. Qed.
 Print Assumptions C16_nonvacuous.
+
+(* ---- what is PRESENTED over histories with cert-store reloads (Model/LeafCertCtx.v): the leaf comes from the current
+   store, the rest of the chain from the lru_cached SSL.Context keyed by (settings, chain_file path, dhparams object).
+   For every history of CA-file rewrites, reloads, handshakes and cache evictions in which clients connect only while
+   the CA file is the one the store was loaded from, every handshake presents the chain of the CA that issued the leaf,
+   PROVIDED each reload gets a fresh dhparams object (the only key component that changes on reload). *)
+Theorem C16_presented_chain_fresh : forall ops,
+  (forall x, In x (LeafCertCtx.run false LeafCertCtx.init ops) -> LeafCertCtx.synced x = true) ->
+  forall x, In x (LeafCertCtx.run false LeafCertCtx.init ops) -> LeafCertCtx.complete x = true.
+Proof. exact LeafCertCtxC16.presented_chain_fresh. Qed.
+Print Assumptions C16_presented_chain_fresh.
+
+(* the tree satisfies the proviso (DH_SHARED is read from the decorators of CertStore.load_dhparam) *)
+Theorem C16_presented_chain_source : forall ops,
+  (forall x, In x (LeafCertCtx.run DH_SHARED LeafCertCtx.init ops) -> LeafCertCtx.synced x = true) ->
+  forall x, In x (LeafCertCtx.run DH_SHARED LeafCertCtx.init ops) -> LeafCertCtx.complete x = true.
+Proof. exact LeafCertCtxC16.presented_chain_source. Qed.
+Print Assumptions C16_presented_chain_source.
+
+(* the proviso is needed: with one dhparams object per path, rotate-in-place + reload presents the old chain *)
+Theorem C16_presented_chain_shared_dh_refuted :
+  LeafCertCtx.run true LeafCertCtx.init LeafCertCtxC16.rotation
+  = [LeafCertCtx.mkShown true 1 1; LeafCertCtx.mkShown true 2 1].
+Proof. exact LeafCertCtxC16.shared_dh_stale. Qed.
+Print Assumptions C16_presented_chain_shared_dh_refuted.
+
+(* and so is the hypothesis on the history: the context reads the file when it is created, not when the store is
+   loaded (known finding chain-file-read-late) *)
+Theorem C16_presented_chain_unsynced_refuted :
+  LeafCertCtx.run false LeafCertCtx.init
+    [LeafCertCtx.Rewrite 1; LeafCertCtx.Reload; LeafCertCtx.Rewrite 2; LeafCertCtx.Handshake 0]
+  = [LeafCertCtx.mkShown false 1 2].
+Proof. exact LeafCertCtxC16.unsynced_needed. Qed.
+Print Assumptions C16_presented_chain_unsynced_refuted.
